@@ -100,3 +100,7 @@ package api
 //@ func NewServiceDetails(ski)
 //@   ensures result != nil && result.ski == norm(ski) && !result.trusted && result.shipID == "" && result.ipv4 == "" && !result.autoAccept
 //@   ensures result.connectionStateDetail != nil && result.connectionStateDetail.state == ConnectionStateNone && result.connectionStateDetail.error == nil
+
+// ======================= lock discipline (C20) =======================
+//@ guarded ServiceDetails.ipv4, ServiceDetails.shipID, ServiceDetails.deviceType, ServiceDetails.autoAccept, ServiceDetails.trusted, ServiceDetails.connectionStateDetail by ServiceDetails.mux
+//@ guarded ConnectionStateDetail.state, ConnectionStateDetail.error by ConnectionStateDetail.mux
